@@ -18,7 +18,7 @@ class TLCRun:
 
     def __init__(self, module: str, cfg: str, workers: int = 16, simulate: str | None = None, depth: int | None = None,
                  seed: int | None = None, env: dict | None = None, subdir: str = 'mc', timeout: float | None = None,
-                 coverage: bool = False, max_cases: int | None = None, heap: str = '6g'):
+                 coverage: bool = False, max_cases: int | None = None, heap: str = '6g', distinct_cases: bool = True):
         self.module = module
         self.cfg = cfg
         self.tmp = tempfile.mkdtemp(prefix='verif_tlc_')
@@ -27,7 +27,10 @@ class TLCRun:
         self.ok = False
         self.errors: list[str] = []
         self.max_cases = max_cases
+        self.distinct_cases = distinct_cases
+        self._seen = set()
         self.cut = False
+        self.emitted = 0
         self.timeout = timeout
         self.other: list[str] = []
         wd = os.path.join(SPEC, subdir)
@@ -67,7 +70,13 @@ class TLCRun:
                             payload = json.loads(body) if body.startswith('"') else body
                         except Exception as ex:
                             raise MachineryError(f'unparsable TLC line: {line[:200]}') from ex
+                        if self.max_cases is not None and self.distinct_cases:
+                            hh = hash(body)
+                            if hh in self._seen:
+                                break
+                            self._seen.add(hh)
                         n += 1
+                        self.emitted = n
                         yield t, payload
                         break
                 if hit:
